@@ -696,6 +696,35 @@ func c07R6(c *Ctx) {
 				}
 				c.check(guarded, fname+"/OpenFile.O_TRUNC", c.ipos(s.Call), "O_TRUNC only on the truncate-parameter edge", "O_TRUNC applied unconditionally")
 			}
+			// the converse (C08: with -y and no resume step the old content must go): every flag value that can reach the
+			// open either carries O_TRUNC or comes over an edge on which the truncate parameter — and nothing else — was
+			// found false (a second condition next to it leaves longer old tails in place)
+			for _, l := range origins(flag, originOpts{}) {
+				hasTrunc := false
+				var walk func(v ssa.Value)
+				walk = func(v ssa.Value) {
+					if n, ok := constInt(v); ok && n&c.osConst("O_TRUNC") != 0 {
+						hasTrunc = true
+					}
+					if b, ok := v.(*ssa.BinOp); ok {
+						walk(b.X)
+						walk(b.Y)
+					}
+				}
+				walk(l.V)
+				if hasTrunc {
+					continue
+				}
+				onlyParamFalse, any := true, false
+				for _, fc := range l.facts() {
+					nf := normFact(fc)
+					any = true
+					if !(isParamValue(nf.V) && !nf.Pol) {
+						onlyParamFalse = false
+					}
+				}
+				c.check(any && onlyParamFalse, fname+"/OpenFile.no-O_TRUNC-only-when-not-asked", c.ipos(s.Call), "the open goes without O_TRUNC only when the caller's truncate flag is false", "the file can be opened without O_TRUNC although truncation was asked for (an extra condition next to the flag): a longer existing file keeps its tail under -y")
+			}
 		}
 	}
 	// v3 receiver passes truncate=false and runs the prefix-hash before returning the writer: C08-R3.
